@@ -28,6 +28,8 @@ type Scenario struct {
 	Sites       []string     `json:"sites,omitempty"` // enabled yield sites (exact names or "prefix.*")
 	Schedule    []int        `json:"schedule,omitempty"`
 
+	Inner bool `json:"inner,omitempty"` // build a second router that handlers can mount ("mount" action)
+
 	// C14 component level
 	CacheCap int `json:"cacheCap,omitempty"`
 
@@ -73,6 +75,7 @@ type RegOp struct {
 	Uses     map[string][]string `json:"uses,omitempty"`     // action -> middleware ids
 	Kind     string              `json:"kind,omitempty"`     // "" | nonptr | nonstruct | ptrptr
 	Again    string              `json:"again,omitempty"`    // register the same controller value a second time under this base path
+	AgainNew bool                `json:"againNew,omitempty"` // ... with a new instance of the same controller type instead
 }
 
 // Action is one step of a handler script.
@@ -112,8 +115,8 @@ type COp struct {
 }
 
 type PoolCfg struct {
-	Policy string `json:"policy"`         // real | fresh | lifo | fifo | random | dirty
-	Seed   uint64 `json:"seed,omitempty"` // random policy
+	Policy string `json:"policy"`          // real | fresh | lifo | fifo | random | dirty
+	Seed   uint64 `json:"seed,omitempty"`  // random policy
 	DropN  int    `json:"dropN,omitempty"` // drop every N-th Put (0: never)
 }
 
